@@ -51,7 +51,7 @@ class C16(core.Check):
     quick_n = 500
     thorough_n = 20000
     rule = ("cases: (srv) 1-4 connections (interleaved arrivals: one read per connection per service cycle, one or more malformed, some closing) to the WSGI Server or the BareServer, each a pipeline of grammar-generated requests, a near-valid table entry (colon without space, "
-            "signed / 0x / non-hex chunk size, chunk extension, bad port / IPv6, bad method / version, 101 headers, 66 kB line, non UTF-8 body) or mutated / raw random bytes, "
+            "parameter-syntax damage of every header the code interprets by name (list read from the source), signed / 0x / non-hex chunk size, chunk extension, bad port / IPv6, bad method / version, 101 headers, 66 kB line, non UTF-8 body) or mutated / raw random bytes, "
             "fragmented per service cycle, some closing; (cli) the Client on a response table (redirects without / with bad / relative / insecure Location, 100-continue, bad UTF-8 "
             "event, bad chunk) or generated / mutated responses; (req/resp) parser-level fuzz.  non-trivial = some bytes and at least one decision; distinct by request line")
     trusted_base = ["translator harness/extract/httpparse.py (raise sites, handlers, issubclass closure)",
@@ -87,6 +87,18 @@ class C16(core.Check):
         for ident in ("7", "\u20ac", "\u65e5\u672c", "\U0001f600", "\xff", "a b", "\x00"):    # Last-Event-ID on reconnect
             cs.append(("clir", sse + b"id: " + ident.encode("utf-8") + b"\ndata: x\n\n", ()))
         cs.append(("clir", b"HTTP/1.1 200 OK\r\nContent-Length: 2\r\n\r\nhi", ()))
+        for digits in (308, 309, 400, 4300, 4301):      # retry too large for a float on reconnect
+            cs.append(("clir", sse + b"retry: " + b"9" * digits + b"\nid: 1\ndata: x\n\n", ()))
+        for host in (b"gone.invalid", b"nxdomain.example"):      # Location host that does not resolve
+            cs.append(("cli", b"HTTP/1.1 302 F\r\nLocation: http://" + host + b"/x\r\nContent-Length: 0\r\n\r\n", (), False, "http"))
+        import random
+        r17 = random.Random(1617)
+        for nm in hp.interpreted_headers():              # parameter-syntax damage of every header the code interprets
+            for val in (b"text/plain;", b"text/html; charset=utf-8;", b";;", b"charset", b"a=b; c", b"", b"x; =y", b"\"q", hp.damage_header_value(r17, nm)):
+                line = nm.title().encode() + b": " + val + b"\r\n"
+                for kind in ("wsgi", "bare"):
+                    cs.append(("srv", kind, ((b"POST /p HTTP/1.1\r\n" + line + b"Content-Length: 2\r\n\r\nhi", (), False), (good, (), False))))
+                cs.append(("cli", b"HTTP/1.1 200 OK\r\n" + line + b"Content-Length: 2\r\n\r\nhi", (), True, "http"))
         cs.append(("clir", sse + b"id: \xff\xfe\ndata: x\n\nretry: 5\n\n", (40,)))
         return cs
 
